@@ -302,17 +302,18 @@ def _ts(*shadows):
 table("tts:textShadow", [
   ("none", NONE),
   ("1px 1px", _ts(_sh("1px", "1px")), "two-length"), ("0.1em 0.1em", _ts(_sh("0.1em", "0.1em")), "two-length"),
-  ("-2% 2%", _ts(_sh("-2%", "2%")), "two-length"),
-  ("2px 2px 1px", _ts(_sh("2px", "2px", "1px")), "three-length"), ("0.05c 0.05c 0.02c", _ts(_sh("0.05c", "0.05c", "0.02c")), "three-length"),
-  ("1px 1px red", _ts(_sh("1px", "1px", None, _RED)), "two-length-colour"),
+  ("-2% 2%", _ts(_sh("-2%", "2%")), "two-length"), ("5% 2px", _ts(_sh("5%", "2px")), "two-length"),
+  ("10% 10% 5%", _ts(_sh("10%", "10%", "5%")), "three-length"), ("0.05em 0.05c 0.02em", _ts(_sh("0.05em", "0.05c", "0.02em")), "three-length"),
+  ("2px 2px 1px", _ts(_sh("2px", "2px", "1px")), "three-length"),
+  ("0.1em 1px red", _ts(_sh("0.1em", "1px", None, _RED)), "two-length-colour"),
   ("5% 5% #00000080", _ts(_sh("5%", "5%", None, C(0, 0, 0, 128))), "two-length-colour"),
-  ("1px 2px 3px #00ff0080", _ts(_sh("1px", "2px", "3px", C(0, 255, 0, 128))), "three-length-colour"),
+  ("1% 2px 3% #00ff0080", _ts(_sh("1%", "2px", "3%", C(0, 255, 0, 128))), "three-length-colour"),
   ("0.1em -0.1em 0.05em black", _ts(_sh("0.1em", "-0.1em", "0.05em", C(0, 0, 0))), "three-length-colour"),
-  ("1px 1px, -1px -1px black", _ts(_sh("1px", "1px"), _sh("-1px", "-1px", None, C(0, 0, 0))), "list"),
-  ("2px 2px 1px red,4px 4px 2px blue", _ts(_sh("2px", "2px", "1px", _RED), _sh("4px", "4px", "2px", C(0, 0, 255))), "list"),
+  ("0.1em 0.1em, -0.1em -0.1em black", _ts(_sh("0.1em", "0.1em"), _sh("-0.1em", "-0.1em", None, C(0, 0, 0))), "list"),
+  ("2% 2px 1% red,4% 4px 2% blue", _ts(_sh("2%", "2px", "1%", _RED), _sh("4%", "4px", "2%", C(0, 0, 255))), "list"),
   ("1% 1%, 2% 2%, 3% 3% 1% white", _ts(_sh("1%", "1%"), _sh("2%", "2%"), _sh("3%", "3%", "1%", C(255, 255, 255))), "list"),
-  ("1px 1px rgba(0,0,0,255)", _ts(_sh("1px", "1px", None, C(0, 0, 0, 255))), "rgb-colour"),
-  ("1px 1px 2px rgb(255,0,0)", _ts(_sh("1px", "1px", "2px", _RED)), "rgb-colour"),
+  ("0.1em 0.1em rgba(0,0,0,255)", _ts(_sh("0.1em", "0.1em", None, C(0, 0, 0, 255))), "shadow-rgb-colour"),
+  ("3% 3% 2% rgb(255,0,0)", _ts(_sh("3%", "3%", "2%", _RED)), "shadow-rgb-colour"),
 ])
 enum("tts:unicodeBidi", "UnicodeBidiType", ["normal", "embed", "bidiOverride"])
 enum("tts:visibility", "VisibilityType", ["visible", "hidden"])
@@ -482,7 +483,8 @@ class _Reader:
     return v.split() if v is not None else []
 
   def style_sss(self, sid, stack) -> dict:
-    """Specified style set of a style element (TTML2 10.4.4.2 applied to `style`): referenced styles in order, then own."""
+    """Specified style set of a style element (TTML2 10.4.4.2 applied to `style`): referenced styles in order, then own.
+    -> prop -> (plain value, depth) ; depth 1 = attribute of the style itself, > 1 = through chained references."""
     if sid in stack:
       self.info.style_loop = True
       return {}
@@ -495,37 +497,53 @@ class _Reader:
     if refs:
       self.info.classes.add("style-chain-%d" % min(len(stack) + 2, 4))
     for r in refs:
-      out.update(self.style_sss(r, stack + [sid]))
-    out.update(own)
+      for p, (v, d) in self.style_sss(r, stack + [sid]).items():
+        out[p] = (v, d + 1)
+    for p, v in own.items():
+      out[p] = (v, 1)
     return out
 
-  def specified(self, x, nested=()) -> dict:
-    """[TTML2 10.4.4.2] referential (in attribute order, later overrides earlier), nested, inline."""
+  def specified(self, x, nested=(), src=None) -> dict:
+    """[TTML2 10.4.4.2] referential (in attribute order, later overrides earlier), nested, inline.
+    `src` (optional dict) receives prop -> origin of the winning value (naming of mechanisms only)."""
     out = {}
+    src = {} if src is None else src
     refs = self.refs_of(x)
     if len(refs) > 1:
       self.info.classes.add("style-multi-ref")
     if len(set(refs)) < len(refs):
       self.info.classes.add("style-dup-ref")
     for r in refs:
-      out.update(self.style_sss(r, []))
+      for p, (v, d) in self.style_sss(r, []).items():
+        out[p] = v
+        src[p] = "referenced" if d == 1 else "chained"
+    nested_seen = set()
     for n in nested:
-      nested_own = self.own_styles(n)
       nested_set = {}
       for r in self.refs_of(n):
+        # a nested style element is a style element: its specified style set includes the styles it references
         self.info.classes.add("nested-style-with-refs")
-        nested_set.update(self.style_sss(r, []))
-      nested_set.update(nested_own)
-      if set(nested_set) & set(getattr(self, "_nested_seen", set())):
+        for p, (v, _d) in self.style_sss(r, []).items():
+          nested_set[p] = (v, "referenced-by-nested")
+      for p, v in self.own_styles(n).items():
+        nested_set[p] = (v, "nested")
+      if set(nested_set) & nested_seen:
         raise Unsupported("conflicting-nested-styles")
-      self._nested_seen = set(getattr(self, "_nested_seen", set())) | set(nested_set)
-      out.update(nested_set)
+      nested_seen |= set(nested_set)
+      if set(nested_set) & set(out):
+        self.info.classes.add("nested-over-referential")
+      for p, (v, o) in nested_set.items():
+        out[p] = v
+        src[p] = o
       self.info.classes.add("nested-style")
-    self._nested_seen = set()
     inline = self.own_styles(x)
+    if nested_seen & set(inline):
+      self.info.classes.add("inline-over-nested")
     if refs and inline and set(inline) & set(out):
       self.info.classes.add("inline-over-referential")
-    out.update(inline)
+    for p, v in inline.items():
+      out[p] = v
+      src[p] = "inline"
     return out
 
   def times_of(self, x):
@@ -671,7 +689,8 @@ class _Reader:
     if b is not None or dur is not None or end is not None:
       self.info.classes.add("region-timing")
     nested = [c for c in x if c.tag == tt("style")]
-    a.styles = self.specified(x, nested)
+    a._src = {}  # pylint: disable=protected-access
+    a.styles = self.specified(x, nested, a._src)  # pylint: disable=protected-access
     for c in x:
       if c.tag == tt("set"):
         self.anim(c, a)
@@ -719,7 +738,8 @@ class _Reader:
         raise Unsupported("dangling-region-reference")
       a.region_id = rid
       self.info.classes.add("region-ref")
-    a.styles = self.specified(x)
+    a._src = {}  # pylint: disable=protected-access
+    a.styles = self.specified(x, (), a._src)  # pylint: disable=protected-access
     if kind == "Br":
       for c in x:
         if c.tag == tt("set"):
@@ -732,6 +752,7 @@ class _Reader:
     begin = sync + (b or Fraction(0))
     tc = x.get("timeContainer")
     seq = tc == "seq"
+    a._seq = seq  # pylint: disable=protected-access
     if seq:
       self.info.classes.add("seq")
       if parent_seq:
@@ -777,7 +798,7 @@ class _Reader:
         e = self.anim(c, a)
         if self.set_counts:
           implicit = None if (e is None or implicit is None) else max(implicit, e)
-        if a.begin is None and begin != 0:
+        if begin != 0:
           self.info.classes.add("set-on-offset-element")
       elif ck is None or ck == "Body":
         if isinstance(c.tag, str) and c.tag.startswith("{%s}" % NS_TT) and c.tag not in (tt("metadata"),):
